@@ -182,7 +182,7 @@ def run_parallel(cmds, timeout):
             name, argv, env = pending.pop(0)
             e = dict(os.environ)
             e.update(env)
-            p = subprocess.Popen(argv, stdout=subprocess.PIPE, stderr=subprocess.STDOUT, env=e)
+            p = subprocess.Popen(argv, stdout=subprocess.PIPE, stderr=subprocess.STDOUT, env=e, preexec_fn=_die_with_parent)
             running.append((name, p))
         still = []
         for name, p in running:
@@ -220,20 +220,31 @@ def load_hashes(path):
     return s
 
 
+def _die_with_parent():
+    """preexec_fn: children are killed when the driver dies (a killed driver must not leave runaway processes behind)."""
+    try:
+        import ctypes, signal
+        ctypes.CDLL("libc.so.6", use_errno=True).prctl(1, signal.SIGKILL)   # PR_SET_PDEATHSIG
+    except Exception:
+        pass
+
+
 def replay_verdict(binp, path, times=3):
-    """Replays a saved case `times` times with the plain replay engine.  Returns (reproduces, text)."""
+    """Replays a saved case `times` times (concurrently) with the plain replay engine.  Returns (reproduces every time, text)."""
     env = dict(os.environ)
     env["ASAN_OPTIONS"] = ASAN_ENV
     env["UBSAN_OPTIONS"] = "print_stacktrace=1"
     env["TSAN_OPTIONS"] = "halt_on_error=1 exitcode=66"
+    procs = [subprocess.Popen([binp, "replay", path], stdout=subprocess.PIPE, stderr=subprocess.STDOUT, env=env, preexec_fn=_die_with_parent) for _ in range(times)]
     text = ""
     n_bad = 0
-    for _ in range(times):
+    for p in procs:
         try:
-            r = subprocess.run([binp, "replay", path], stdout=subprocess.PIPE, stderr=subprocess.STDOUT, env=env, timeout=120)
-            out = r.stdout.decode("utf-8", "replace")
-            rc = r.returncode
+            out, _ = p.communicate(timeout=180)
+            out = out.decode("utf-8", "replace")
+            rc = p.returncode
         except subprocess.TimeoutExpired:
+            p.kill(); p.communicate()
             out, rc = "replay timed out (wall clock; not a verdict)", 0
         if rc != 0:
             n_bad += 1
@@ -428,6 +439,7 @@ def check(pid, tier):
     for old in glob.glob(os.path.join(rdir, tier + "-*")):
         os.remove(old)
     n_replayed = 0
+    hang_confirmed = False
     for v, path, how in candidates:
         if len(violations) >= 3 or n_replayed >= 12:
             notes.append("%d further failing candidates not replayed (same run)" % (len(candidates) - n_replayed))
@@ -435,6 +447,8 @@ def check(pid, tier):
         if path is None:
             violations.append(("(none)", how))
             continue
+        if path.endswith(".hang") and hang_confirmed:
+            continue          # one confirmed non-terminating case is enough; each further one costs a full watchdog period
         with open(path, "rb") as f:
             blob = f.read()
         digest = hashlib.sha256(blob + v.encode()).hexdigest()[:12]
@@ -444,6 +458,8 @@ def check(pid, tier):
         n_replayed += 1
         ok, text = replay_verdict(bins[v]["prop"], path)
         if ok:
+            if path.endswith(".hang"):
+                hang_confirmed = True
             sig = signature(text)
             if sig in sigs:
                 continue
